@@ -36,6 +36,8 @@ def main():
         if a.only:
             for r in res:
                 print(r["name"], r["status"], r["reason"][:2000])
+                for fp in r["failed"]:
+                    print("   FAILED:", fp["description"], "@", fp["location"])
                 for e in r.get("replay", []) or []:
                     print("   replay:", e)
             return 0 if all(r["status"] == "pass" for r in res) else 1
